@@ -838,12 +838,13 @@ func Recv1[T any](ch <-chan T) T {
 
 // MapKeys returns the keys of m in a canonical order permuted by the run's map-order
 // seed (rule R4). With no order seed installed it returns them sorted.
-func MapKeys[V any](m map[string]V) []string {
-	keys := make([]string, 0, len(m))
+func MapKeys[K comparable, V any](m map[K]V) []K {
+	keys := make([]K, 0, len(m))
 	for k := range m {
 		keys = append(keys, k)
 	}
-	sort.Strings(keys)
+	// canonical order: by the printed form of the key (keys here are strings or small structs of strings)
+	sort.Slice(keys, func(i, j int) bool { return keyString(keys[i]) < keyString(keys[j]) })
 	if s := mapOrderSeed.Load(); s != 0 {
 		r := NewRand(s)
 		for i := len(keys) - 1; i > 0; i-- {
